@@ -23,6 +23,7 @@ type Clause struct {
 }
 
 type LoopSpec struct {
+	Exits      []Clause // assertions that must hold on every edge leaving the loop (entry(e) refers to the loop entry)
 	Invariants []Clause
 	Decreases  *Clause
 	Unroll     int
@@ -94,7 +95,7 @@ var clauseKeywords = map[string]bool{
 	"func": true, "requires": true, "ensures": true, "modifies": true, "let": true, "loop": true, "invariant": true,
 	"decreases": true, "unroll": true, "pred": true, "trusted": true, "inline": true, "pure": true, "props": true,
 	"iface": true, "global": true, "allocates": true, "effects": true, "at": true, "assert": true, "nonil": true, "nosafety": true,
-	"guarded_by": true, "fresh": true, "terminates": true, "split": true,
+	"guarded_by": true, "fresh": true, "terminates": true, "split": true, "exit": true,
 }
 
 func parseContractFile(path, pkgPath string) (*ContractFile, error) {
@@ -288,6 +289,15 @@ func parseContractFile(path, pkgPath string) (*ContractFile, error) {
 					return nil, err
 				}
 				curLoop.Invariants = append(curLoop.Invariants, c)
+			case "exit":
+				if curLoop == nil {
+					return nil, fmt.Errorf("%s: exit outside loop", where)
+				}
+				c, err := mk(l, true)
+				if err != nil {
+					return nil, err
+				}
+				curLoop.Exits = append(curLoop.Exits, c)
 			case "decreases":
 				if curLoop == nil {
 					return nil, fmt.Errorf("%s: decreases outside loop", where)
